@@ -327,6 +327,8 @@ type Node struct {
 	// the one before or the one being committed
 	crashTorn bool
 	dbClosed  bool
+	curRec    *BlockRec // block being executed (for the fault-context measure)
+	curK      int
 }
 
 func (n *Node) baseOpts() []func(*baseapp.BaseApp) {
